@@ -253,28 +253,27 @@ func GetOnlyExplainErr(errMsg string) string {
 	}
 	buf := newStrBuf(1 << 8)
 	defer putStrBuf(buf)
-	zhLen := len(ExplainZh)
-	enLen := len(ExplainEn)
-	endLen := len(ErrEndFlag)
-	splitLen := zhLen
 	nullLen := 1 // err msg [说明: xxx] 里包含一个空需要处理
-	for {
-		s := strings.Index(errMsg, ExplainZh)
-		e := strings.Index(errMsg, ErrEndFlag) // 未发现的话, 为最后一句错误
-		if s == -1 || (e != -1 && s > e) {     // 说明为英文
-			s = strings.Index(errMsg, ExplainEn)
-			splitLen = enLen
+	wrote := false
+	// 按句处理, 没有说明的句子(如: 验证名不存在)直接跳过
+	for _, clause := range strings.Split(errMsg, ErrEndFlag) {
+		// 取句子里最先出现的说明标记
+		s, splitLen := strings.Index(clause, ExplainZh), len(ExplainZh)
+		if en := strings.Index(clause, ExplainEn); en != -1 && (s == -1 || en < s) {
+			s, splitLen = en, len(ExplainEn)
 		}
-		if s == -1 { // 异常
-			break
+		if s == -1 {
+			continue
 		}
-		if e == -1 {
-			buf.WriteString(errMsg[s+splitLen+nullLen:])
-			break
+		start := s + splitLen + nullLen
+		if start > len(clause) {
+			start = len(clause)
 		}
-		buf.WriteString(errMsg[s+splitLen+nullLen : e])
-		buf.WriteString(ErrEndFlag)
-		errMsg = errMsg[e+endLen:]
+		if wrote {
+			buf.WriteString(ErrEndFlag)
+		}
+		buf.WriteString(clause[start:])
+		wrote = true
 	}
 	return buf.String()
 }
